@@ -33,6 +33,7 @@ def verStr : Ver → String
 def showRes : Res → String
   | .err .timeout => "timeout - . 0 -"
   | .err .netconf => "netconf - . 0 -"
+  | .err .transport => "transport - . 0 -"
   | .ok o => s!"ok {verStr o.ver} {showHexList o.caps} {o.sid} {toHex o.sent}"
 
 def prefOf (b : Bytes) : Option Pref :=
@@ -47,10 +48,24 @@ def zipCaps : List Bytes → List Bytes → List (Bytes × Bytes)
 
 def normLayout (L : Layout) : Layout :=
   { L with decl := L.decl.map dropCR, attrs := dropCR L.attrs, ws0 := dropCR L.ws0,
-           ws1 := dropCR L.ws1, ws2 := dropCR L.ws2, ws3 := dropCR L.ws3, ws4 := dropCR L.ws4,
+           pre := dropCR L.pre, ws1 := dropCR L.ws1, ws2 := dropCR L.ws2, ws3 := dropCR L.ws3, ws4 := dropCR L.ws4,
            caps := L.caps.map fun (u, w) => (u, dropCR w) }
 
 def ret : Bytes := Gen.Channel.DefaultReturnChar
+
+/-- no accumulated buffer of the login loop matches the password or passphrase pattern (the
+patterns are only run on buffers that hold the words at all) -/
+def noLoginPrompt (chunks : List Bytes) : Bool :=
+  let whole := (chunks.flatten).map toLowerB
+  if !(isInfix (ofStr "password:") whole) && !(isInfix (ofStr "passphrase") whole) then true
+  else
+    let rec go (acc : Bytes) : List Bytes → Bool
+      | [] => true
+      | c :: cs =>
+        let b := acc ++ c
+        if Rx.isMatch Gen.Rx.Netconf.v1Dot0Delim b then true
+        else !(Rx.isMatch Gen.Rx.Channel.password b) && !(Rx.isMatch Gen.Rx.Channel.passphrase b) && go b cs
+    go [] chunks
 
 /-! history requests: `hist <pref> <depth> <event>…` with events `p<cap hex>` (probe), `c` (close),
 `o<chunks>` (Open; the reads of that session as the transport delivered them). Answer: the
@@ -73,6 +88,7 @@ def showObs : Obs → String
   | .opened v => s!"O:{verStr v}"
   | .openErr .netconf => "E:netconf"
   | .openErr .timeout => "E:timeout"
+  | .openErr .transport => "E:transport"
   | .openDead => "E:dead"
   | .closed => "C"
 
@@ -87,13 +103,17 @@ def handleHist (pref depth : String) (evs : List String) : String :=
 
 def handle : List String → String
   | "hist" :: pref :: depth :: evs => handleHist pref depth evs
-  | ["open", pref, depth, decl, pfx, attrs, w0, w1, w2, w3, w4, uris, wss, sid, suffix, chunks] =>
-    match fromHex pref, depth.toNat?, optHex decl, fromHex pfx, fromHex attrs, fromHex w0, fromHex w1,
+  -- flags: `a` = in-channel authentication precedes (chunks = reads after the password), `w` = the
+  -- transport fails the write of the client hello, `-` = none
+  | ["open", pref, depth, flags, pre, decl, pfx, attrs, w0, w1, w2, w3, w4, uris, wss, sid, suffix, chunks] =>
+    match fromHex pref, depth.toNat?, fromHex pre, optHex decl, fromHex pfx, fromHex attrs, fromHex w0, fromHex w1,
       fromHex w2, fromHex w3, fromHex w4, hexList uris, hexList wss, optHex sid, fromHex suffix,
       hexList chunks with
-    | some pref, some depth, some decl, some pfx, some attrs, some w0, some w1, some w2, some w3,
+    | some pref, some depth, some pre, some decl, some pfx, some attrs, some w0, some w1, some w2, some w3,
       some w4, some uris, some wss, some sid, some suffix, some chunks =>
-      let L : Layout := { decl := decl, pfx := pfx, attrs := attrs, ws0 := w0, ws1 := w1, ws2 := w2,
+      let auth := flags.contains 'a'
+      let wfail := flags.contains 'w'
+      let L : Layout := { pre := pre, decl := decl, pfx := pfx, attrs := attrs, ws0 := w0, ws1 := w1, ws2 := w2,
                           ws3 := w3, ws4 := w4, caps := zipCaps uris wss, sid := sid }
       let Ln := normLayout L
       let chunksN := chunks.map (normalizeChunk stripAnsi)
@@ -101,21 +121,25 @@ def handle : List String → String
       let uriOK := uris.all fun u => !u.contains CR
       let suffixN := dropCR suffix
       let H := render Ln
+      -- in the login loop no accumulated buffer may look like a password / passphrase prompt
+      let loginQuiet := !auth || (noLoginPrompt chunksN)
       let dom := Ln.ok && noEsc && uriOK && uris.length == wss.length && noLT suffixN &&
         chunksN.flatten == H ++ D ++ suffixN && delimFirstAtEnd D H && windowOK D depth H suffixN &&
-        delimIsLiteral
+        delimIsLiteral && loginQuiet
       let spec : String :=
-        match prefOf pref with
-        | none => "badoption - . 0 -"
-        | some p =>
-          let caps := Ln.caps.map Prod.fst
-          match sidValue Ln.sid, specVersion (hasCap caps Gen.Netconf.v1Dot0Cap) (hasCap caps Gen.Netconf.v1Dot1Cap) p with
-          | some n, some v => s!"ok {verStr v} {showHexList caps} {n} {toHex (clientHello v ++ ret)}"
-          | _, _ => "netconf - . 0 -"
-      let scan := openSession (parseHelloScan true) delimRx depth ret pref chunksN
-      let rx := openSession parseHello delimRx depth ret pref chunksN
-      s!"{b2s dom} {toHex (render L)} | {spec} | {showRes scan} | {showRes rx}"
-    | _, _, _, _, _, _, _, _, _, _, _, _, _, _, _ => "bad-op"
+        let p := (prefOf pref).getD .none
+        let caps := Ln.caps.map Prod.fst
+        match sidValue Ln.sid, specVersion (hasCap caps Gen.Netconf.v1Dot0Cap) (hasCap caps Gen.Netconf.v1Dot1Cap) p with
+        | some n, some v =>
+          if wfail then "transport - . 0 -"
+          else s!"ok {verStr v} {showHexList caps} {n} {toHex (clientHello v ++ ret)}"
+        | _, _ => "netconf - . 0 -"
+      let run := fun (parse : Bytes → Bool × List Bytes × Option Bytes) =>
+        withWriteFailure wfail
+          (if auth then openSessionAuth parse delimRx depth ret pref chunksN
+           else openSession parse delimRx depth ret pref chunksN)
+      s!"{b2s dom} {toHex (render L)} | {spec} | {showRes (run (parseHelloScan true))} | {showRes (run parseHello)}"
+    | _, _, _, _, _, _, _, _, _, _, _, _, _, _, _, _ => "bad-op"
   -- arbitrary bytes as the server's first message: model of the code only
   | ["raw", pref, depth, chunks] =>
     match fromHex pref, depth.toNat?, hexList chunks with
